@@ -325,3 +325,113 @@ func (r *Run) ConfirmSeq(name string, factory func() System) {
 		}
 	}
 }
+
+// Forker is a System whose current state can be copied cheaply (e.g. a chain
+// node = database copy + reopen).  DFSFork then explores every op sequence
+// without replaying prefixes: each tree node is executed exactly once.
+type Forker interface {
+	System
+	Fork() Forker
+	Close()
+}
+
+// DFSFork enumerates EVERY op sequence of length <= Depth from the state the
+// factory returns.  Shards (all paths of length ShardDepth) are distributed
+// over the workers; a shard is rebuilt by replaying its path once.
+func (r *Run) DFSFork(factory func() Forker, o SeqOpts) {
+	if o.ShardDepth <= 0 {
+		o.ShardDepth = 1
+	}
+	if o.ShardDepth > o.Depth {
+		o.ShardDepth = o.Depth
+	}
+	type shard struct{ ops []string }
+	var shards []shard
+	// phase 1: expand to ShardDepth sequentially (checked and counted here)
+	var expand func(n Forker, ops, obs []string)
+	expand = func(n Forker, ops, obs []string) {
+		if len(ops) == o.ShardDepth {
+			shards = append(shards, shard{append([]string{}, ops...)})
+			return
+		}
+		for _, op := range n.Enabled() {
+			c := n.Fork()
+			ob := c.Apply(op)
+			r.visit(c, o, append(ops, op), append(obs, ob))
+			expand(c, append(ops, op), append(obs, ob))
+			c.Close()
+		}
+	}
+	root := factory()
+	root.Reset()
+	expand(root, nil, nil)
+	root.Close()
+	if o.ShardDepth >= o.Depth {
+		return
+	}
+	var next int64 = -1
+	var wg sync.WaitGroup
+	for w := 0; w < r.Workers; w++ {
+		wg.Add(1)
+		go func() {
+			defer wg.Done()
+			for {
+				i := atomic.AddInt64(&next, 1)
+				if int(i) >= len(shards) || r.Expired() {
+					return
+				}
+				n := factory()
+				n.Reset()
+				var obs []string
+				for _, op := range shards[i].ops {
+					obs = append(obs, n.Apply(op))
+				}
+				r.dfsFork(n, o, shards[i].ops, obs)
+				n.Close()
+			}
+		}()
+	}
+	wg.Wait()
+}
+
+func (r *Run) visit(c Forker, o SeqOpts, ops, obs []string) {
+	atomic.AddInt64(&r.Transitions, 1)
+	atomic.AddInt64(&r.States, 1)
+	if !o.NoDistinct {
+		if k := c.Key(); k != "" {
+			r.Distinct(k)
+		}
+	}
+	for _, v := range c.Check() {
+		v.System, v.Config = o.Name, o.Config
+		v.Ops = append([]string{}, ops...)
+		v.Obs = append([]string{}, obs...)
+		r.Report(v)
+	}
+}
+
+func (r *Run) dfsFork(n Forker, o SeqOpts, ops, obs []string) {
+	if len(ops) >= o.Depth {
+		atomic.AddInt64(&r.Executions, 1)
+		if len(ops) >= 2 {
+			r.Sample(strings.Join(ops, " ; "))
+		}
+		return
+	}
+	en := n.Enabled()
+	if len(en) == 0 {
+		atomic.AddInt64(&r.Executions, 1)
+		return
+	}
+	for _, op := range en {
+		if r.Expired() {
+			return
+		}
+		c := n.Fork()
+		ob := c.Apply(op)
+		nops, nobs := append(ops[:len(ops):len(ops)], op), append(obs[:len(obs):len(obs)], ob)
+		r.visit(c, o, nops, nobs)
+		r.dfsFork(c, o, nops, nobs)
+		c.Close()
+	}
+}
